@@ -1,5 +1,6 @@
 // sched.cpp - serialising seeded scheduler over real threads (S6).
 #include "sched.hpp"
+#include "trap.hpp"
 #include <stdlib.h>
 
 namespace jv {
@@ -78,6 +79,8 @@ Scheduler::~Scheduler() { for (auto t : tasks) { sem_destroy(&t->sem); delete t;
 
 // H1: the library's weak hook binds to this definition (the executable is linked -rdynamic).
 extern "C" __attribute__((visibility("default"))) void embedded_pairing_verif_yield(void) {
+    if (!jv::g_yield_extra && !jv::g_sched) return;
+    jv::OutOfLib out;
     if (jv::g_yield_extra) jv::g_yield_extra();
     if (jv::g_sched) jv::g_sched->yield_point(0);
 }
